@@ -19,7 +19,7 @@ lazy_static! {
         (?P<minute>[0-5][0-9]):?
         (?P<second>[0-5][0-9]|6[0-1])
         (?:[.,](?P<frac>[0-9]+))?
-        (?P<offset>[-+][01][0-9]:?[0-5][0-9]|Z)$").unwrap();
+        (?P<offset>[-+](?:[01][0-9]|2[0-3]):?[0-5][0-9]|Z)$").unwrap();
 
     static ref INVALID: ParseError = DateTime::<FixedOffset>::from_str("").unwrap_err();
 }
